@@ -323,6 +323,17 @@ func (vc *VC) ghostVar(st *State, gv *GhostVar) (Term, types.Type, error) {
 		srt = SBool
 		ty = types.Typ[types.Bool]
 	case gv.Type == "mathint":
+	case strings.HasPrefix(gv.Type, "set[") && strings.HasSuffix(gv.Type, "]"):
+		// a ghost set of values of a Go type: setin(s, x), setadd(s, x)
+		t, err := env.resolveTypeName(gv.Type[4 : len(gv.Type)-1])
+		if err != nil {
+			return Term{}, nil, err
+		}
+		es, err := vc.tt.SortOf(t)
+		if err != nil {
+			return Term{}, nil, err
+		}
+		srt = SArray(es, SBool)
 	default:
 		t, err := env.resolveTypeName(gv.Type)
 		if err != nil {
@@ -491,17 +502,17 @@ func (vc *VC) mergeStates(ins []*State) *State {
 	// heaps
 	sorts := map[Sort]bool{}
 	for _, s := range ins {
-		for k := range s.heaps {
+		for _, k := range sortedKeys(s.heaps) {
 			sorts[k] = true
 		}
 	}
 	if !sameBase {
-		for k := range vc.heapReg {
+		for _, k := range sortedKeys(vc.heapReg) {
 			sorts[k] = true
 		}
 	}
 	var sl []string
-	for k := range sorts {
+	for _, k := range sortedKeys(sorts) {
 		sl = append(sl, string(k))
 	}
 	sort.Strings(sl)
@@ -523,7 +534,7 @@ func (vc *VC) mergeStates(ins []*State) *State {
 	}
 	mkeys := map[string]bool{}
 	for _, s := range ins {
-		for k := range s.maps {
+		for _, k := range sortedKeys(s.maps) {
 			mkeys[k] = true
 		}
 	}
@@ -559,11 +570,11 @@ func (vc *VC) mergeStates(ins []*State) *State {
 	}
 	gkeys := map[string]bool{}
 	for _, s := range ins {
-		for k := range s.ghost {
+		for _, k := range sortedKeys(s.ghost) {
 			gkeys[k] = true
 		}
 	}
-	for k := range gkeys {
+	for _, k := range sortedKeys(gkeys) {
 		kk := k
 		ok := true
 		for _, s := range ins {
@@ -716,4 +727,29 @@ func (vc *VC) rangeAssumption(v Term, t types.Type, alloc Term) Term {
 type capturedCell struct {
 	addr Term
 	ty   types.Type
+}
+
+// sortedKeys: map keys in a fixed order, so that generated names and queries do not depend on
+// Go's randomised map iteration (the same source must give the same SMT text on every run).
+func sortedKeys[K ~string, V any](m map[K]V) []K {
+	ks := make([]K, 0, len(m))
+	for k := range m {
+		ks = append(ks, k)
+	}
+	sort.Slice(ks, func(i, j int) bool { return ks[i] < ks[j] })
+	return ks
+}
+
+func sortedKV(m map[[2]Sort]bool) [][2]Sort {
+	ks := make([][2]Sort, 0, len(m))
+	for k := range m {
+		ks = append(ks, k)
+	}
+	sort.Slice(ks, func(i, j int) bool {
+		if ks[i][0] != ks[j][0] {
+			return ks[i][0] < ks[j][0]
+		}
+		return ks[i][1] < ks[j][1]
+	})
+	return ks
 }
